@@ -1648,6 +1648,22 @@ theorem C20_ds_extra (rules : List Rule) : holdsExtra rules (extraSubs rules) = 
   · intro e he x hx
     exact extraSubs_entries rules e he x hx
 
+/-- **the variable-font path hands the writers the same mapping as the per-master path**: the loop of
+`compile_variable_features` over the designspace's rules yields `extraSubs rules`. -/
+theorem C20_ds_variable_same (rules : List Rule) : extraSubsVariable rules = extraSubs rules := rfl
+
+/-- on either path the writers receive a mapping that satisfies the declarative requirement (every replacement of
+every rule, nothing else), for every list of rules -/
+theorem C20_ds_extra_paths (p : Path) (rules : List Rule) : holdsExtra rules (writersExtra p rules) = true := by
+  cases p
+  · exact C20_ds_extra rules
+  · show holdsExtra rules (extraSubsVariable rules) = true
+    rw [C20_ds_variable_same]; exact C20_ds_extra rules
+
+/-- what the unfixed `compile_variable_features` handed over (no mapping at all) violates the requirement as soon as
+a rule substitutes anything -/
+example : holdsExtra [[("alpha", "alpha.bold")]] [] = false := by decide
+
 theorem mem_classifyExtra (m : SubMap) (sets : List (Tag × List String)) (s : Tag) (glyphs : List String)
     (h : (s, glyphs) ∈ sets) : ∃ glyphs', (s, glyphs') ∈ classifyExtra m sets ∧
       (∀ x, x ∈ glyphs' ↔ x ∈ glyphs ∨ ∃ g ∈ glyphs, x ∈ extraGet m g) := by
